@@ -4,7 +4,7 @@ from evalutil import *
 
 ID = "C04"
 LEVEL = "proof"
-MODULES = ["H3Proofs.Props.C04", "H3Proofs.Props.C04Children"]
+MODULES = ["H3Proofs.Props.C04", "H3Proofs.Props.C04Children", "H3Proofs.Props.C04Valid"]
 THEOREMS = "auto"
 ASSUMPTIONS = ["hand-written model of cellToParent/cellToChildrenSize/cellToCenterChild/iterInitParent/"
                "iterStepChild tied to the code by the correspondence check (exact list equality, order included)"]
